@@ -76,15 +76,20 @@ def _request_shape(si, hi, pi, qi, ri, full_url):
     url = pick(_SCHEMES, si) + '://' + pick(_HOSTS, hi) + pick(_PATHS, pi) + pick(_QUERIES, qi)
     ref = pick(_REFERERS, ri)
     try:
-        # as the processor does: the request is built from the NORMALISED URL of the table record; what has to be on the wire is
-        # decided by the URL as it was given
         given = URLInfo.parse(url)
-        req = Request(given.url)
     except ValueError:
         hit('url-rejected')
         return True
+    try:
+        # as the processor does: the request is built from the NORMALISED URL of the table record; what has to be on the wire is
+        # decided by the URL as it was given
+        req = Request(given.url)
+    except ValueError:
+        return False                                    # the stored (normalised) URL of an accepted link cannot be turned into a request
     if (req.url_info.hostname, req.url_info.port, req.url_info.path, req.url_info.query) != (given.hostname, given.port, given.path, given.query):
         return False                                    # normalising moved the request to another host / resource
+    if any(ord(c) <= 0x20 for c in given.hostname_with_port):
+        return False                                    # a control character or blank in what becomes the Host field
     if ref:
         rec = make_record(req.url_info.url, parent_url=ref)
         WebProcessorSession._add_referrer(req, rec)
